@@ -461,7 +461,7 @@ func (sp *StakePool) DistributeRewardsRandN(
 		if err := spUpdate.Emit(event.TagStakePoolReward, balances); err != nil {
 			return err
 		}
-		return nil
+		return fmt.Errorf("no stake")
 	}
 
 	for _, pool := range pools {
